@@ -276,9 +276,60 @@ def run(ctx):
                 report(ctx, o, why)
     if per_class:
         ctx.info.append("failing inputs per class: %s" % json.dumps(per_class))
+    # error requests through the REAL packet engine (N workers, merger, sender, error stream): every error request
+    # one error record, every good request before and after it one frame (the engine side of C13Wire.v)
+    from checks import c07
+    if ctx.harness_build("c07"):
+        eng = c07.run_harness(ctx, 12 if quick else 120, ctx.seed + 13, name="engine.jsonl", maxreq=400)
+        for o in eng:
+            reqs = o["reqs"] or []
+            ctx.count("engine:" + o["class"], ("engine", o["n"], o["cap"], json.dumps(reqs)), nontrivial=any(r["bad"] for r in reqs),
+                      sample={"workers": o["n"], "requests": len(reqs), "with_error": sum(1 for r in reqs if r["bad"])})
+            why = engine_spec(o)
+            if why:
+                why = "packet engine, %d workers, %d requests of which %d carry an error: %s" % (
+                    o["n"], len(reqs), sum(1 for r in reqs if r["bad"]), why)
+                path = ctx.write_replay("engine-case%d" % o["case"], {"property": "C13", "what": why, "input": {
+                    "n": o["n"], "cap": o["cap"], "reqs": reqs, "harness": "c07 -seed %d -n %d -maxreq 400 -only %d" % (
+                        ctx.seed + 13, 12 if quick else 120, o["case"])}})
+                if sum(1 for f in ctx.findings if f["key"].startswith("engine:")) < 2:
+                    ctx.findings.append({"key": "engine:" + why.split(":")[1][:40], "what": why, "replay": path})
     if model_ok and rows:
         T.evaluate(ctx, rows, case_term, "From SX Require Import Base.Bytes Model.IPNet Spec.C13.", 16 if quick else 64, describe, CODES)
     return ctx.finish(rule=RULE)
+
+
+def engine_spec(o):
+    """C13 on a complete run of the real packet engine: one error record per request that carries an error, no frame
+    for it, no frame twice, and every good request BEFORE the first error request on the wire (what happens to
+    entries after an offending one is left open by the property: processing may stop there)."""
+    if o["panic"]:
+        return "panic: " + o["panic"]
+    if o["stuck"]:
+        return "stuck: " + o["stuck"]
+    reqs = o["reqs"] or []
+    bad = [r["id"] for r in reqs if r["bad"]]
+    got = [w["id"] for w in (o["wire"] or [])]
+    errs = o["errs"] or []
+    for b in bad:
+        n = errs.count("req:%d" % b)
+        if b in got:
+            return "the entry %d that carries an error became a frame on the wire" % b
+        if n > 1:
+            return "the entry %d that carries an error yields %d error records" % (b, n)
+    dup = sorted(x for x in set(got) if got.count(x) > 1)
+    if dup:
+        return "entry %d is probed %d times" % (dup[0], got.count(dup[0]))
+    if bad:
+        first = min(bad)
+        lost = [r["id"] for r in reqs if r["id"] < first and not r["bad"] and r["fill"] and r["write"] and r["id"] not in got]
+        if lost:
+            return "entries %s BEFORE the first offending entry %d are never probed (%d of %d frames written)" % (
+                lost[:5], first, len(got), sum(1 for r in reqs if not r["bad"] and r["fill"] and r["write"]))
+        missing_errs = [b for b in bad if "req:%d" % b not in errs]
+        if missing_errs and len(got) == sum(1 for r in reqs if not r["bad"] and r["fill"] and r["write"]):
+            return "the offending entries %s yield no error record although the scan ran to its end" % missing_errs[:5]
+    return None
 
 
 def replay(ctx, path):
